@@ -91,6 +91,9 @@ class Interp:
         self._feas_cache = {}
         self._const_cache = {}
         self._resolve_cache = {}
+        self._norm_cache = {}
+        self._pat_cache = {}
+        self._tysub_cache = {}
         self.depth = 0
         self.max_depth = 3000
         self.stmt_budget = None
@@ -723,7 +726,7 @@ class Interp:
             if it is not None:
                 return it
             sty = short_type(ty)
-            if sty.startswith("dyn_") or re.fullmatch(r"[A-Z]\w{0,8}", sty) or sty == "Self":
+            if sty.startswith("dyn_") or re.fullmatch(r"[A-Z][A-Z0-9_]{0,7}", sty) or sty == "Self":
                 return "dyn"
             # trait default method?
             if trait is not None:
@@ -766,7 +769,7 @@ class Interp:
         root = head.split("::")[0]
         if root in roots and "::_::_serde" not in head:
             return True
-        if "::" not in head and (re.fullmatch(r"[A-Z]\w{0,10}", head) or head.startswith("dyn ") or head == "Self"):
+        if "::" not in head and (re.fullmatch(r"[A-Z][A-Z0-9_]{0,7}", head) or head.startswith("dyn ") or head == "Self"):
             return True
         if head.startswith("dyn ") or head.startswith("(dyn "):
             return True
@@ -818,11 +821,14 @@ class Interp:
 
     def call_raw(self, raw, args, frame, dest_ty=None):
         """Call the function named by a call-site path."""
-        norm = strip_generics(raw)
-        if norm.startswith("core::"):
-            norm = "std::" + norm[6:]
-        elif norm.startswith("alloc::"):
-            norm = "std::" + norm[7:]
+        norm = self._norm_cache.get(raw)
+        if norm is None:
+            norm = strip_generics(raw)
+            if norm.startswith("core::"):
+                norm = "std::" + norm[6:]
+            elif norm.startswith("alloc::"):
+                norm = "std::" + norm[7:]
+            self._norm_cache[raw] = norm
         ov = self.overrides.get(norm)
         if ov is not None:
             self.stats.intrinsics_used[norm] = self.stats.intrinsics_used.get(norm, 0) + 1
@@ -840,10 +846,14 @@ class Interp:
             return self.run_item(it, args, self.make_tysub(it, raw, frame, args))
         fn = self.intrinsics.get(norm)
         if fn is None:
-            for rx, f in self.patterns:
-                if rx.search(norm):
-                    fn = f
-                    break
+            fn = self._pat_cache.get(norm, 0)
+            if fn == 0:
+                fn = None
+                for rx, f in self.patterns:
+                    if rx.search(norm):
+                        fn = f
+                        break
+                self._pat_cache[norm] = fn
         if fn is None:
             raise Unsupported("no model for callee `%s` (norm `%s`) called from %s" % (raw[:300], norm[:200], frame.name if frame else "?"))
         self.stats.intrinsics_used[norm] = self.stats.intrinsics_used.get(norm, 0) + 1
@@ -853,6 +863,18 @@ class Interp:
         names = self.p.generics_of(item)
         if not names:
             return None
+        ck = None
+        if not (raw.startswith("<dyn ") or raw.startswith("<(dyn ")):
+            ck = (item.name, raw, tuple(sorted(frame.tysub.items())) if frame is not None and frame.tysub else None)
+            r = self._tysub_cache.get(ck)
+            if r is not None and r[0]:
+                return r[1]
+        sub = self._make_tysub(names, raw, frame, args)
+        if ck is not None and generic_args_flat(raw):
+            self._tysub_cache[ck] = (True, sub)
+        return sub
+
+    def _make_tysub(self, names, raw, frame, args=None):
         vals = generic_args_flat(raw)
         vals = [self.subst(v, frame) for v in vals]
         sub = {}
